@@ -91,6 +91,20 @@ static char *run_program(int id)
   snprintf(path, sizeof path, "%s/nosuch%d.cfg", dir, id);
   rc = config_read_file(&c2, path);
   put(&res, &len, &cap, "missing=%d type=%d\n", rc, (int)config_error_type(&c2));
+  /* an include that cannot be opened, with an include directory in effect (the library resolves the name); the error is
+     looked at only after more work on another configuration: it belongs to this configuration alone */
+  {
+    config_t c3; char *w3 = NULL; size_t l3 = 0;
+    config_init(&c3);
+    config_set_include_dir(&c3, dir);
+    snprintf(text, sizeof text, "k%d = 1;\n\n@include \"absent%d.cfg\"\n", id, id);
+    rc = config_read_string(&c3, text);
+    m = open_memstream(&w3, &l3); config_write(&c, m); fclose(m); free(w3);
+    (void)config_lookup(&c, name);
+    put(&res, &len, &cap, "absent=%d err=%s file=%s line=%d type=%d\n", rc, config_error_text(&c3) ? config_error_text(&c3) : "-",
+        config_error_file(&c3) ? "set" : "-", config_error_line(&c3), (int)config_error_type(&c3));
+    config_destroy(&c3);
+  }
   free(wbuf); free(wbuf2);
   config_destroy(&c2);
   config_destroy(&c);
